@@ -25,6 +25,7 @@ package blockstore
 //@   call[InsertionIndex.InsertNoReplace#0] assert record [C01,C03,C05]: ref(arg0) == ref(b.idx) && arg1 == c && arg2 == wrap_u64(wrap_s64(athead(0, wn(b.dataWriter)) - wbase(b.dataWriter)))
 //@   call[InsertionIndex.InsertNoReplace#0] assert after_write [C06,C16]: werr == nil
 //@   ghost after call[InsertionIndex.InsertNoReplace#0]: pend(b) := wn(b.dataWriter)
+//@   check every_block_of_the_batch_is_decided [C01,C06]: err == nil ==> rangeindex == len(blks)
 //@   ensures ri_on_return [C16]: wn(b.dataWriter) == pend(b)
 //@   ensures released [C08]: held(b.ronly.mu) == 0
 //@   ensures closed_err [C04]: old(b.ronly.closed) ==> err == errClosed && wn(b.dataWriter) == old(wn(b.dataWriter)) && nrec(b.idx) == old(nrec(b.idx))
